@@ -3,7 +3,7 @@ from lib.driver import Ob
 LEVEL = 'model_checking'
 EXPLANATION = ('Purity is reduced to the state that outlives a call: the process-wide model cache and the thread-local decimal context. (1) One inductive cache step from an '
                'arbitrary valid cache state (shared with C17) covers request histories of any length and order. (2) every ordered pair of '
-               'requests from a pool of 32 public-API requests (5 recognisers, 6 cultures incl. regional variants, numerals in both separator conventions), cold or warm cache, and the thread on which the second '
+               'requests from a pool of 34 public-API requests (5 recognisers, 6 cultures incl. regional variants, numerals in both separator conventions), cold or warm cache, and the thread on which the second '
                'request runs; its result must equal that of the same request made alone in a fresh interpreter. (2b) At unit level symx runs the real digit kernel twice on one parser object, the second numeral with symbolic digits. (3) Up to 4 threads issue the same request at once on a cold cache.')
 ASSUMPTIONS = ['the pool of requests (listed in harness/C02.py) stands for "any request": it contains fraction/decimal arithmetic in en, es, zh (the thread-local precision), '
                'date-time with a fixed reference, currency, dimension, sequence, choice, and culture codes that are resolved by nearest-language mapping',
@@ -18,9 +18,9 @@ def obligations(tier):
     obs = [Ob('O2.1-cache-step', 'sx', 'harness.C17:h_cache_step', slices=[{'req': r} for r in range(12)], timeout=t,
               descr='one request from an arbitrary valid cache state returns the model of its own key and preserves the invariant (histories of any length/order)',
               bounds='key pool 2 types x 3 cultures x 2 options; <= 2 pre-cached entries', encodes=[T + 'model:ModelFactory.get_model', T + 'model:ModelFactory.try_get_model']),
-           Ob('O2.2-history-thread', 'fn', 'harness.C02:history_pairs', slices=[{'i': i} for i in range(32)], timeout=t,
+           Ob('O2.2-history-thread', 'fn', 'harness.C02:history_pairs', slices=[{'i': i} for i in range(34)], timeout=t,
               descr='second request of any ordered pair = the same request made alone, for cold/warm cache and main/other thread',
-              bounds='32 x 32 ordered pairs x cold/warm x same/other thread',
+              bounds='34 x 34 ordered pairs x cold/warm x same/other thread',
               engine='exhaustive composition check over the finite pair space against a fresh-interpreter baseline (not a solver verdict); counterexamples carry the process history',
               encodes=['recognizers_number.number.parsers:BaseNumberParser.parse', 'recognizers_number.number.cjk_parsers:CJKNumberParser.parse',
                        'recognizers_number.number.utilities:precision', T + 'recognizer:Recognizer.get_model']),
